@@ -939,3 +939,41 @@ Proof. vm_compute. reflexivity. Qed.
 
 Example ex_empty_locks : forall pw', verify (gen []) pw' = false /\ verify (gen [0;97]) pw' = false.
 Proof. intros pw'. split; apply gen_empty_locks; reflexivity. Qed.
+
+Example ex_check_accounts :
+  fst (check_pw ex_c n_sysop [49;50;51]) = ROk [] /\ fst (check_pw ex_c [103;117;101;115;116] []) = RErr E_USERID /\
+  (id_valid n_sysop = true /\ exists a, s_map (abs ex_c) (fold_id n_sysop) = Some a /\ verify (s_pw a) [49;50;51] = true).
+Proof.
+  split; [vm_compute; reflexivity|]. split; [vm_compute; reflexivity|].
+  apply (proj1 (check_pw_exact_accounts ex_c n_sysop [49;50;51] ex_wf)). vm_compute. reflexivity.
+Qed.
+
+(* ================================================================== the gin handlers *)
+
+(* the handlers over the specification: changing the password or e-mail of the literal id guest is refused before
+   the accounts are asked; every refusal is one status *)
+Definition api_guarded (o : op) : bool :=
+  match o with
+  | OChangePw n _ _ | OChangeEmail n _ => eqbl n ptttype.STR_GUEST
+  | _ => false
+  end.
+Definition api_answer (r : result) : result := match r with RErr _ => RErr E_API | _ => r end.
+Definition sapi_step (s : sst) (o : op) (r : result) (s' : sst) : Prop :=
+  if api_guarded o then r = RErr E_API /\ s' = s
+  else exists r0, sstep s o r0 s' /\ r = api_answer r0.
+
+Theorem api_step_refines c o : WF c ->
+  exists s', sapi_step (abs c) o (fst (api_step c o)) s' /\ seq s' (abs (snd (api_step c o))).
+Proof.
+  intros W. unfold api_step, sapi_step. fold (api_guarded o). destruct (api_guarded o).
+  - exists (abs c). split; [split; reflexivity|apply seq_refl].
+  - destruct (step_refines c o W) as (s' & Hs & Hseq). exists s'. destruct (step c o) as [[x|e] c1]; cbn [fst snd] in *.
+    + split; [exists (ROk x); split; [exact Hs|reflexivity]|exact Hseq].
+    + split; [exists (RErr e); split; [exact Hs|reflexivity]|exact Hseq].
+Qed.
+
+Example ex_api_guard :
+  fst (api_step ex_c (OChangeEmail [103;117;101;115;116] [98])) = RErr E_API /\
+  fst (step ex_c (OChangeEmail [103;117;101;115;116] [98])) = ROk [] /\
+  fst (api_step ex_c (OLogin n_sysop [120])) = RErr E_API /\ fst (api_step ex_c (OLogin n_sysop [49;50;51])) = ROk [83;89;83;79;80].
+Proof. vm_compute. repeat split. Qed.
